@@ -326,7 +326,7 @@ PROPS['C14'] = {
                   'chain); HashSet / HashMap lookups as documented. Known finding carved out by input: Go writes a cross-crate struct payload of a '
                   'tuple variant as value in folder mode and as pointer in single-file mode.',
     'design_ref': 'DESIGN.md section 10.14',
-    'bounded': ['cli_multifile'],
+    'bounded': ['cli_multifile', 'cli_extras'],
 }
 PROPS['C07']['units'].append('imports')
 PROPS['C07']['units'].append('impwrite')
